@@ -45,7 +45,11 @@ def gen_pairs(rng, per_op):
     A, X, R565 = F["a8r8g8b8"], F["x8r8g8b8"], F["r5g6b5"]
     for op in OPS_ALL:
         for _ in range(per_op):
-            fam = rng.choice(["S1", "S1", "S2", "S3", "M1", "M1", "D1"])
+            fam = rng.choice(["S1", "S1", "S2", "S3", "M1", "M1", "D1", "D1"])
+            if fam == "S2" and op in FLOAT_OPS:
+                # r5g6b5 content is widened to different real values (n/31 vs n/255): under float-evaluated operators
+                # the two presentations are not the same content, and ill-conditioned operators amplify the difference
+                fam = "S1"
             dw, dh = rng.randint(4, 12), rng.randint(1, 3)
             w, h = rng.randint(1, dw), rng.randint(1, dh)
             dx, dy = rng.randint(0, dw - w), rng.randint(0, dh - h)
@@ -96,6 +100,8 @@ def gen_pairs(rng, per_op):
                 sf = rng.choice([A, X]) if skind == 0 else A
                 mk = rng.choice([0, 4])
                 variants = [dict(dfmt=X, sfmt=sf, mkind=mk), dict(dfmt=A, sfmt=sf, mkind=mk)]
+                if rng.random() < 0.7:
+                    quant |= 2          # destination with REPEAT_NORMAL: the alpha-less one is flagged opaque
             for vi, v in enumerate(variants):
                 lines.append(preq(pair, vi, cmp_, op, v.get("skind", skind), v["sfmt"], sw, sh, srep, sfilt, t,
                                   v.get("mkind", mkind), v.get("dfmt", dfmt), dw, dh, sx, sy, dx, dy, w, h, seed,
